@@ -308,7 +308,7 @@ func c14Run(tb *testing.T, t *rapid.T, vk *vkCtx, protos []cpxProto) {
 		name := fmt.Sprintf("x%d", i+1)
 		spec := c14DrawSpec(t, name, interval)
 		cn := mk(nil, spec)
-		c.withTrieCfg(cn, func() { cn.n = cpxAddNode(w, t, name, spec, lruUsed, false) })
+		c.withTrieCfg(cn, func() { cn.n = cpxAddNode(w, t, name, spec, lruUsed, cpxStoreDrawn) })
 		lruUsed = lruUsed || !cn.n.Cfg.DisableLedgerLRUCache
 		c.nodes = append(c.nodes, cn)
 	}
